@@ -342,7 +342,7 @@ type hopJSON struct {
 }
 
 type ecaseJSON struct {
-	Route     string   `json:"route"` // A | AA | AB | ABA
+	Route     string   `json:"route"` // A | AA | AB | ABA | ABM | ABMA | ABMB | AP | AS | AT | ATA | M | MM
 	SameName  bool     `json:"same_name"`
 	ClientVia []string `json:"client_via"`
 	Proto     string   `json:"proto"` // HTTP/1.1 | HTTP/1.0
@@ -492,6 +492,19 @@ func (rg *rig) run(c ecaseJSON) eobs {
 	case "ABA":
 		rg.A.SetUpstream(rg.B.URL())
 		rg.B.SetUpstream(rg.A.URL())
+	case "ABM", "ABMA", "ABMB": // three instances (M: the MITM-enabled proxy, used for plain requests here)
+		rg.A.SetUpstream(rg.B.URL())
+		rg.B.SetUpstream(rg.M.URL())
+		switch c.Route {
+		case "ABM":
+			rg.M.SetUpstream(nil)
+		case "ABMA":
+			rg.M.SetUpstream(rg.A.URL())
+		default:
+			rg.M.SetUpstream(rg.B.URL())
+		}
+		rg.M.LoopGuard.Store(rg.M.Passed.Load() + 8)
+		rg.M.RouteGuard.Store(rg.M.Routed.Load() + 8)
 	case "AP":
 		rg.A.SetUpstream(&url.URL{Scheme: "http", Host: rg.P.Addr()})
 	case "AS": // A -> scripted upstream proxy behind TLS
@@ -524,7 +537,7 @@ func (rg *rig) run(c ecaseJSON) eobs {
 	rg.A.RouteGuard.Store(rg.A.Routed.Load() + 8)
 	rg.B.RouteGuard.Store(rg.B.Routed.Load() + 8)
 	conns0, n0 := sink.Snapshot()
-	ob := eobs{TagA: rg.tagA, TagB: rg.tagB, TagT: rg.tagT}
+	ob := eobs{TagA: rg.tagA, TagB: rg.tagB, TagT: rg.tagT, TagM: rg.tagM}
 	cl, err := g01rig.Dial(rg.A.Addr)
 	if err != nil {
 		ob.Err = err.Error()
@@ -650,13 +663,13 @@ func coqEcase(rg *rig, c ecaseJSON, o eobs) string {
 
 func genEcase(r *rng.R, rg *rig, sameName bool) ecaseJSON {
 	c := ecaseJSON{SameName: sameName, Proto: "HTTP/1.1", Method: "GET"}
-	c.Route = []string{"A", "A", "AA", "AB", "ABA", "AP", "M", "MM", "AS", "AT", "ATA"}[r.Intn(11)]
+	c.Route = []string{"A", "A", "AA", "AB", "ABA", "AP", "M", "MM", "AS", "AT", "ATA", "ABM", "ABMA", "ABMB"}[r.Intn(14)]
 	if r.Chance(1, 4) {
 		c.Proto = "HTTP/1.0"
 	}
 	if r.Chance(1, 8) {
 		c.Method = []string{"POST", "HEAD", "DELETE", "OPTIONS"}[r.Intn(4)]
-	} else if r.Chance(1, 6) && !strings.HasPrefix(c.Route, "M") {
+	} else if r.Chance(1, 6) && !strings.Contains(c.Route, "M") {
 		c.Method = "CONNECT"
 	}
 	c.Nominate = r.Chance(1, 12) && !strings.HasPrefix(c.Route, "M")
@@ -1009,7 +1022,7 @@ func main() {
 		}
 		var cases []ecaseJSON
 		// corpus: fixed shapes first
-		for _, route := range []string{"A", "AA", "AB", "ABA"} {
+		for _, route := range []string{"A", "AA", "AB", "ABA", "ABM", "ABMA", "ABMB"} {
 			cases = append(cases,
 				ecaseJSON{Route: route, SameName: same, Proto: "HTTP/1.1", Method: "GET"},
 				ecaseJSON{Route: route, SameName: same, Proto: "HTTP/1.0", Method: "GET", ClientVia: []string{"1.1 alpha", "1.0 beta, 1.1 gamma"}},
